@@ -1812,7 +1812,14 @@ func (p *bprover) prove(facts []bfact, goal blin, at *ssa.BasicBlock, splits int
 				// a bound on a loop-carried accumulator whose induction fact
 				// mentions a relevant atom (total >= init + k*len(x), total <= c)
 				for a := range f.e.t {
-					if ph, isPhi := a.v.(*ssa.Phi); isPhi && a.k == aVal && isLoopPhi(ph) {
+					definitional := false
+					switch dv := a.v.(type) {
+					case *ssa.Phi:
+						definitional = a.k == aVal && isLoopPhi(dv)
+					case *ssa.BinOp:
+						definitional = a.k == aVal && (dv.Op == token.QUO || dv.Op == token.SHR || dv.Op == token.REM || dv.Op == token.AND)
+					}
+					if definitional {
 						for _, af := range p.atomFacts(a) {
 							for b := range af.e.t {
 								if rel[b] {
@@ -1873,8 +1880,38 @@ func (p *bprover) prove(facts []bfact, goal blin, at *ssa.BasicBlock, splits int
 	if p.infeasible(append(append([]blin{}, cons...), negGoal)) {
 		return true
 	}
-	// conditional facts: r = x % y with y >= 1 provable  =>  -(y-1) <= r <= y-1 (and r >= 0 when x >= 0)
+	// conditional facts: q = x / c with c > 0 constant and x >= 0 provable  =>  c*q <= x <= c*q + c - 1
 	added := false
+	for _, a := range p.sortedAtoms(rel) {
+		bo, ok := a.v.(*ssa.BinOp)
+		if !ok || a.k != aVal || bo.Op != token.QUO {
+			continue
+		}
+		c, isC := bconstInt(bo.Y)
+		if !isC || c <= 0 {
+			continue
+		}
+		if r0 := p.valRange(bo.X); r0.hasLo && r0.lo >= 0 {
+			continue // unconditional facts already present
+		}
+		xl := p.linOf(bo.X)
+		if p.trace {
+			fmt.Printf("   conditional quotient %s: dividend %s\n", a.v.Name(), p.linStr(xl))
+		}
+		nx, _ := xl.scale(-1)
+		if !p.infeasible(append(append([]blin{}, cons...), nx.addc(-1))) { // x >= 0 ?
+			continue
+		}
+		if cq, ok := blatom(a).scale(c); ok {
+			if e1, ok := xl.sub(cq); ok {
+				cons = append(cons, e1)
+			}
+			if e2, ok := cq.sub(xl); ok {
+				cons = append(cons, e2.addc(c-1))
+			}
+			added = true
+		}
+	}
 	for _, a := range p.sortedAtoms(rel) {
 		bo, ok := a.v.(*ssa.BinOp)
 		if !ok || a.k != aVal || bo.Op != token.REM {
